@@ -33,8 +33,9 @@ Init == c = 0
 Next == c < 65535 /\ c' = c + 1
 Spec == Init /\ [][Next]_c
 
-RowsOf(code) == {i \in 1..Len(Dump.tables) : Dump.tables[i].code = code}
-ProbesOf(code) == {i \in 1..Len(Dump.probes) : Dump.probes[i].code = code}
+\* rows / probes are grouped per code by the dumper (index = code + 1) so TLC indexes directly
+RowsOf(code) == Dump.rowsByCode[code + 1]
+ProbesOf(code) == Dump.probesByCode[code + 1]
 
 \* exactly one category out of the six
 C28_Total == Cat(c) \in Categories
@@ -42,9 +43,9 @@ C28_Total == Cat(c) \in Categories
 C28_Standard == LET s == SpecCat(c) IN
                 IF s = "FailureOrUnknown" THEN Cat(c) \in {"Failure", "Unknown", "Warning"} ELSE Cat(c) = s
 \* every service-specific table gives the code the same category
-C28_TablesAgree == \A i \in RowsOf(c) : Dump.tables[i].cat = Cat(c)
+C28_TablesAgree == \A i \in DOMAIN RowsOf(c) : RowsOf(c)[i].cat = Cat(c)
 \* finality: the SCU keeps iterating / the SCP keeps the operation open exactly for Pending,
 \* and for the Repository Query response-limit warning B001
 ContinueRule(code, model) == Cat(code) = "Pending" \/ (model = "Repository" /\ code = 45057)
-C28_Finality == \A i \in ProbesOf(c) : Dump.probes[i].continued = ContinueRule(c, Dump.probes[i].model)
+C28_Finality == \A i \in DOMAIN ProbesOf(c) : ProbesOf(c)[i].continued = ContinueRule(c, ProbesOf(c)[i].model)
 =============================================================================
